@@ -405,18 +405,19 @@ def run_scale(shard, res):
             r = cpu[3] / max(cpu[0], 1e-4)
             res.observe("scale:cpu-ratio", "%s=%.1f" % (name, r))
             if r > 24:
-                confirmed = 0
-                for _ in range(3):
-                    a = _measure(f(sizes[0]))[2]
-                    b = _measure(f(sizes[3]))[2]
-                    if b / max(a, 1e-4) > 24:
-                        confirmed += 1
-                if confirmed == 3:
+                # one timing decides nothing: repeat both ends and compare the MINIMA (the
+                # estimator that other load on the machine cannot inflate).  Code that is
+                # super-linear shows it in the minima as well; a single slow run does not
+                a = min(_measure(f(sizes[0]))[2] for _ in range(5))
+                b = min(_measure(f(sizes[3]))[2] for _ in range(5))
+                r2 = b / max(a, 1e-4)
+                if r2 > 24:
                     res.monitors["scaling:cpu"][1] += 1
                     res.violation({"kind": "superlinear", "metric": "cpu", "family": name},
-                                  {"sizes": sizes, "cpu_s": cpu})
+                                  {"sizes": sizes, "cpu_s": cpu, "min_of_5_cpu_s": [a, b]})
                 else:
-                    res.inconclusive.append("cpu ratio for %s not reproducible" % name)
+                    res.count("scale:cpu-outliers-not-confirmed-by-minimum-of-5")
+                    res.observe("scale:cpu-outliers", "%s first=%.1f min-of-5=%.1f" % (name, r, r2))
     res.sample({"workload": "scale", "families": shard["families"], "sizes": [n0, 8 * n0]}, 1)
 
 
